@@ -124,6 +124,8 @@ def ex(e, env):
         if not parts:
             return is_and
         return _join(parts, is_and)
+    if isinstance(e, ast.Constant) and isinstance(e.value, bool):
+        return e.value
     if isinstance(e, ast.UnaryOp) and isinstance(e.op, ast.Not):
         t = ex(e.operand, env)
         if isinstance(t, bool):
@@ -553,24 +555,33 @@ def _dump_body(fn):
     return "[" + ", ".join(ast.dump(s) for s in _body(fn)) + "]"
 
 
-def check_shape(fn, want, what):
-    got = _dump_body(fn)
-    if got != want:
-        raise TranslateError(f"{what} (line {fn.lineno}) no longer has the shape the hand-written model of bound generation was written for")
+def check_shape(fn, want, what, broken):
+    if _dump_body(fn) != want:
+        broken.append(f"{what} (line {fn.lineno})")
 
 
 def translate(repo="/repo"):
     mod = ast.parse(Path(repo, "pyanalyze/typevar.py").read_text())
     solve_txt = tr_solve(_find_fn(mod, "solve"))
     rrs_txt = tr_rrs(_find_fn(mod, "remove_redundant_solutions"))
-    check_shape(_find_fn(mod, "resolve_bounds_map"), RESOLVE_SHAPE, "typevar.resolve_bounds_map")
+    # facts about bound generation / resolve_bounds_map that the hand-written parts of the model
+    # (Model.v: dedup, arg_bounds, call_solution) were written for; a broken fact does not stop
+    # the translation of solve (the model stays runnable) but makes the generated obligation
+    # `bound_generation_shape_ok = true` (Properties/C15.v) fail
+    broken = []
     vmod = ast.parse(Path(repo, "pyanalyze/value.py").read_text())
-    check_shape(_find_fn(_find_class(vmod, "Value"), "is_assignable"), IS_ASSIGNABLE_SHAPE, "Value.is_assignable")
-    tvv = _find_class(vmod, "TypeVarValue")
-    check_shape(_find_fn(tvv, "get_inherent_bounds"), INHERENT_SHAPE, "TypeVarValue.get_inherent_bounds")
-    check_shape(_find_fn(tvv, "can_assign"), TV_CAN_ASSIGN_SHAPE, "TypeVarValue.can_assign")
-    check_shape(_find_fn(tvv, "make_bounds_map"), MAKE_BOUNDS_MAP_SHAPE, "TypeVarValue.make_bounds_map")
-    check_shape(_find_fn(vmod, "unify_bounds_maps"), UNIFY_SHAPE, "value.unify_bounds_maps")
+    try:
+        check_shape(_find_fn(mod, "resolve_bounds_map"), RESOLVE_SHAPE, "typevar.resolve_bounds_map", broken)
+        check_shape(_find_fn(_find_class(vmod, "Value"), "is_assignable"), IS_ASSIGNABLE_SHAPE, "Value.is_assignable", broken)
+        tvv = _find_class(vmod, "TypeVarValue")
+        check_shape(_find_fn(tvv, "get_inherent_bounds"), INHERENT_SHAPE, "TypeVarValue.get_inherent_bounds", broken)
+        check_shape(_find_fn(tvv, "can_assign"), TV_CAN_ASSIGN_SHAPE, "TypeVarValue.can_assign", broken)
+        check_shape(_find_fn(tvv, "make_bounds_map"), MAKE_BOUNDS_MAP_SHAPE, "TypeVarValue.make_bounds_map", broken)
+        check_shape(_find_fn(vmod, "unify_bounds_maps"), UNIFY_SHAPE, "value.unify_bounds_maps", broken)
+    except TranslateError as ex:
+        broken.append(str(ex))
+    shape_ok = "true" if not broken else "false"
+    shape_note = "; ".join(broken).replace("*)", "* )") or "all shapes as expected"
     return f"""(* GENERATED by harness/translate/solve.py from pyanalyze/typevar.py — do not edit *)
 From Coq Require Import List Bool Arith.
 Import ListNotations.
@@ -591,6 +602,11 @@ Section Solve.
   Definition resolve (bounds : list (bound V)) : result V :=
     solve (dedup (bound_eqb O) bounds).
 End Solve.
+
+(* resolve_bounds_map, Value.is_assignable, TypeVarValue.get_inherent_bounds / can_assign /
+   make_bounds_map and unify_bounds_maps still have the statement shape the model was written for
+   ({shape_note}) *)
+Definition bound_generation_shape_ok : bool := {shape_ok}.
 """
 
 
